@@ -1,0 +1,12 @@
+//go:build verif
+
+// Contracts checked by /verif (gocv). Comment-only; compiled only with -tags verif.
+
+package worker
+
+//@ func NewGroup
+//@   requires numWorkers >= 0
+//@   ensures[C13] one-worker-per-step: len(result) == numWorkers && fresh(result) && !isnil(result)
+//@   ensures[C13] workers-nonnil: forall j in 0..numWorkers :: result[j] != nil
+//@   loop 0 invariant 0 <= i && i <= numWorkers && len(group) == numWorkers && fresh(group) && !isnil(group)
+//@   loop 0 invariant forall j in 0..i :: group[j] != nil
